@@ -283,8 +283,9 @@ CLAIMS['C03'] = dict(
          'within the stop point (the first sentence of the property). The pool is unchanged by all of them. '
          'Quantified contracts over the pool view, loop invariants, generator expressions as exists/forall.',
     note=_PROOF_NOTE + 'The contract of TaskPool.log_unsatisfied_prereqs (True exactly when some task within the '
-         'stop point waits on something within it) is USED at its call site but verified only by the thorough '
-         'command (nested loops over a dictionary of lists; minutes). NOT covered: the liveness half ("never '
+         'stop point waits on something within it) is USED at its call site but is an ASSUMED contract: its '
+         'verification (three nested loops over a dictionary of lists) did not finish within an hour; a bounded '
+         'native enumeration (contracts/c03_replay.py) compares the real function with the contract. NOT covered: the liveness half ("never '
          'leaves a ready task unsubmitted indefinitely", "reports a stall only when no task can progress" over '
          'time) - whole-history statements. Prerequisite satisfaction is a ghost function of the task (what '
          'is_satisfied() returns is C13); xtriggers do not enter is_stalled in the code and are not part of '
